@@ -43,7 +43,7 @@ META = {
     'decided': ['D1 constraint coverage', 'D2 domain agreement',
                 'D3 separator-aware hierarchical tests / argument-path rule',
                 'D4 missing arguments never match', 'D5 isolation and '
-                'removal', 'D6 rule text agrees with the local rule',
+                'removal (client router; daemon RemoveMatch accounting)', 'D6 rule text agrees with the local rule',
                 'D7 proxy subscription guarded by the signature'],
     'undecided': ['matcher == reference matcher on generated pairs',
                   'add/remove histories'],
@@ -517,6 +517,13 @@ def isolation(ctx, match, mpaths):
             oka = True
     ctx.ob('C12.D5', afi.qualname, 'returns-registration-key', oka,
            'addMatch must return the key under which the rule was stored')
+    # the daemon-side user of the same router: RemoveMatch over all
+    # add/remove histories (shared with C14.D5)
+    bus = prog.cls('bus.Bus')
+    rmf = prog.lookup_method(bus, 'dbus_RemoveMatch') if bus else None
+    if rmf is not None:
+        from .c14 import removematch_accounting
+        removematch_accounting(ctx, rmf, 'C12.D5')
 
 
 def rule_text(ctx):
